@@ -857,8 +857,17 @@ func runHandCase(c *HCase) {
 					// (the hand engine takes a bet below the minimum: then that was this turn's action)
 					ms = hr.attempt(c, HCall{Player: call.Player, Action: "bet", Chips: 1, Why: "turn"}, true)
 				}
-				if ms != nil && (ms.Ok || stuck(ms) || ms.Wedged) {
-					continue
+				if ms != nil {
+					if stuck(ms) {
+						return // (the engine's own step after it was made to fail: the history ends here, as after any other action)
+					}
+					if ms.Wedged {
+						c.Note = "wedged"
+						return
+					}
+					if ms.Ok {
+						continue
+					}
 				}
 			}
 			// the backend may fail this call once, twice, ... ; the same action is then submitted again
